@@ -16,9 +16,9 @@ Block = one `C04.reset` line (the probe universe) followed by operations.
   C04.dhcpset ipkind addr zone mac                   => …
   C04.dhcpdel ipkind addr zone                       => …
   <client> = uid ver name nIP (ipkind addr zone)* nSub (is6 addr bits)* nMAC mac* nCID cid*
-             invalidConf useOwn filt ssearch sbrowse parental useOwnSvc svc
+             invalidConf useOwn filt ssearch sbrowse parental useOwnSvc svc ssobj tags
   <res>  = ok | err <kind> | panic
-  <seen> = - | uid:ver | D | P | S:name:svc:f:ss:sb:p
+  <seen> = - | uid:ver | D | P | S:name:tags:svc:f:ss:ssobj:sb:p:prot:untouched
 -/
 
 def beNat (bs : List Nat) : Nat := bs.foldl (fun acc b => acc * 256 + b) 0
@@ -70,14 +70,15 @@ def parseClient (fs : List String) : Option (Client × List String) := do
         | nCID :: rest =>
           let (cids, rest) ← takeHex (← nCID.toNat?) rest
           match rest with
-          | inv :: own :: f :: ss :: sb :: par :: ownSvc :: svc :: rest =>
+          | inv :: own :: f :: ss :: sb :: par :: ownSvc :: svc :: ssobj :: tags :: rest =>
             let c : Client := {
               uid := ← uid.toNat?, ver := ← ver.toNat?, name := ← hexDecode name
               ips := ips, subnets := subs, macs := macs, cids := cids
               invalidConf := ← parseBool inv, useOwnSettings := ← parseBool own
               filteringEnabled := ← parseBool f, safeSearchEnabled := ← parseBool ss
               safeBrowsingEnabled := ← parseBool sb, parentalEnabled := ← parseBool par
-              useOwnBlockedServices := ← parseBool ownSvc, svc := ← svc.toNat? }
+              useOwnBlockedServices := ← parseBool ownSvc, svc := ← svc.toNat?
+              safeSearch := ← ssobj.toNat?, tags := ← tags.toNat? }
             pure (c, rest)
           | _ => none
         | [] => none
@@ -115,18 +116,21 @@ def showSeen : Seen → String
   | .none => "-"
   | .client u v => toString u ++ ":" ++ toString v
   | .broken => "P"
-  | .setts s => "S:" ++ hexEncode s.clientName ++ ":" ++ toString s.svc ++ ":" ++ showB s.filteringEnabled ++ ":" ++
-      showB s.safeSearchEnabled ++ ":" ++ showB s.safeBrowsingEnabled ++ ":" ++ showB s.parentalEnabled
+  | .setts s => ":".intercalate ["S", hexEncode s.clientName, toString s.clientTags, toString s.svc,
+      showB s.filteringEnabled, showB s.safeSearchEnabled, toString s.clientSafeSearch,
+      showB s.safeBrowsingEnabled, showB s.parentalEnabled, showB s.protectionEnabled, showB s.untouched]
 
 def parseSeen (s : String) : Option Seen :=
   if s == "-" then some .none
   else if s == "P" || s == "D" then some .broken
   else match s.splitOn ":" with
     | [u, v] => do pure (.client (← u.toNat?) (← v.toNat?))
-    | ["S", n, svc, f, ss, sb, p] => do
-      pure (.setts { clientName := ← hexDecode n, svc := ← svc.toNat?, filteringEnabled := ← parseBool f,
-                     safeSearchEnabled := ← parseBool ss, safeBrowsingEnabled := ← parseBool sb,
-                     parentalEnabled := ← parseBool p })
+    | ["S", n, tags, svc, f, ss, sso, sb, p, prot, unt] => do
+      pure (.setts { clientName := ← hexDecode n, clientTags := ← tags.toNat?, svc := ← svc.toNat?,
+                     filteringEnabled := ← parseBool f, safeSearchEnabled := ← parseBool ss,
+                     clientSafeSearch := ← sso.toNat?, safeBrowsingEnabled := ← parseBool sb,
+                     parentalEnabled := ← parseBool p, protectionEnabled := ← parseBool prot,
+                     untouched := ← parseBool unt })
     | _ => none
 
 def lookSeen : Look → String
